@@ -59,6 +59,9 @@ func newWorld(c Case) *world {
 	case "public":
 		w.main.AuthMethod, w.main.AppType, w.main.Secret = "none", "native", ""
 	}
+	if c.AppType != "" {
+		w.main.AppType = c.AppType
+	}
 	w.aux = &vkit.ClientSpec{
 		ID: "aux", Secret: "aux-secret", AppType: "web", AuthMethod: "client_secret_basic",
 		GrantTypes: all, ResponseTypes: []string{"code"}, RedirectURIs: []string{redirectURI},
@@ -68,7 +71,7 @@ func newWorld(c Case) *world {
 	ao.ID, ao.JWTAccessToken = "aux-opaque", false
 	w.auxO = &ao
 	w.svc = &vkit.ClientSpec{ID: "svcuser", AppType: "web", AuthMethod: "private_key_jwt", GrantTypes: []string{vkit.GBearer}, Keys: map[string]string{"sk": "rsa4"}}
-	pol := vkit.StorePolicy{JWTProfileJWT: c.JWTAT, TE: vkit.TEPolicy{VerifyThird: true}}
+	pol := vkit.StorePolicy{JWTProfileJWT: c.JWTAT, TE: vkit.TEPolicy{VerifyThird: true}, EmptySecretOK: c.EmptySecretOK}
 	if c.SessionState {
 		pol.SessionState = "sess-state-1"
 	}
@@ -81,6 +84,24 @@ func newWorld(c Case) *world {
 }
 
 func (w *world) cred(cl *vkit.ClientSpec) vkit.Cred { return vkit.RightCred(cl, issuer) }
+
+// present: how the client of the request under test presents itself (set-up requests always use the fitting presentation).
+func (w *world) present() vkit.Cred {
+	cl := w.main
+	switch w.c.Present {
+	case "basic":
+		return vkit.Cred{Kind: "basic", ClientID: cl.ID, Secret: cl.Secret}
+	case "basic-empty": // RFC 6749 2.3.1 as some HTTP libraries do it for a client without a secret: "client_id:" in the Basic header
+		return vkit.Cred{Kind: "basic", ClientID: cl.ID}
+	case "post":
+		return vkit.Cred{Kind: "post", ClientID: cl.ID, Secret: cl.Secret}
+	case "id":
+		return vkit.Cred{Kind: "none", ClientID: cl.ID}
+	case "assertion":
+		return vkit.Cred{Kind: "assertion", Assertion: vkit.ClientAssertion(cl, issuer, time.Now())}
+	}
+	return w.cred(cl)
+}
 
 const pkceVerifier = "verifier-0123456789-0123456789-0123456789-0123456789"
 
@@ -158,7 +179,7 @@ func (w *world) prepare() (func() *vkit.Resp, string) {
 			v = pkceVerifier
 		}
 		form := vkit.CodeExchangeForm(fl.Code, redirectURI, v)
-		return func() *vkit.Resp { return w.ag.Token(form, w.cred(w.main)) }, ""
+		return func() *vkit.Resp { return w.ag.Token(form, w.present()) }, ""
 
 	case "refresh":
 		t, ok := w.codeFlow(w.main, userMain, c.Scopes, c.PKCE)
@@ -169,11 +190,11 @@ func (w *world) prepare() (func() *vkit.Resp, string) {
 		if c.Narrow {
 			form.Set("scope", "openid")
 		}
-		return func() *vkit.Resp { return w.ag.Token(form, w.cred(w.main)) }, ""
+		return func() *vkit.Resp { return w.ag.Token(form, w.present()) }, ""
 
 	case "client_credentials":
 		form := url.Values{"grant_type": {vkit.GCC}, "scope": {strings.Join(c.Scopes, " ")}}
-		return func() *vkit.Resp { return w.ag.Token(form, w.cred(w.main)) }, ""
+		return func() *vkit.Resp { return w.ag.Token(form, w.present()) }, ""
 
 	case "jwt_bearer":
 		form := url.Values{"grant_type": {vkit.GBearer}, "assertion": {vkit.ClientAssertion(w.svc, issuer, time.Now())}, "scope": {strings.Join(c.Scopes, " ")}}
@@ -231,10 +252,10 @@ func (w *world) prepare() (func() *vkit.Resp, string) {
 		case "id":
 			form.Set("requested_token_type", ttID)
 		}
-		return func() *vkit.Resp { return w.ag.Token(form, w.cred(w.main)) }, ""
+		return func() *vkit.Resp { return w.ag.Token(form, w.present()) }, ""
 
 	case "device_authorize":
-		return func() *vkit.Resp { return w.ag.DeviceAuthorize(strings.Join(c.Scopes, " "), w.cred(w.main)) }, ""
+		return func() *vkit.Resp { return w.ag.DeviceAuthorize(strings.Join(c.Scopes, " "), w.present()) }, ""
 
 	case "device_poll":
 		d := w.ag.DeviceAuthorize(strings.Join(c.Scopes, " "), w.cred(w.main))
@@ -243,7 +264,7 @@ func (w *world) prepare() (func() *vkit.Resp, string) {
 			return nil, "device-authorize"
 		}
 		form := url.Values{"grant_type": {vkit.GDevice}, "device_code": {dc}}
-		return func() *vkit.Resp { return w.ag.Token(form, w.cred(w.main)) }, ""
+		return func() *vkit.Resp { return w.ag.Token(form, w.present()) }, ""
 
 	case "userinfo", "introspect", "revoke":
 		t, ok := w.codeFlow(w.main, userMain, c.Scopes, c.PKCE)
@@ -254,7 +275,7 @@ func (w *world) prepare() (func() *vkit.Resp, string) {
 		case "userinfo":
 			return func() *vkit.Resp { return w.ag.UserInfo(t.access) }, ""
 		case "introspect":
-			return func() *vkit.Resp { return w.ag.Introspect(t.access, w.cred(w.main)) }, ""
+			return func() *vkit.Resp { return w.ag.Introspect(t.access, w.present()) }, ""
 		}
 		tok := t.access
 		if c.TokenKind == "refresh" {
@@ -263,7 +284,7 @@ func (w *world) prepare() (func() *vkit.Resp, string) {
 		if tok == "" {
 			return nil, "no-token"
 		}
-		return func() *vkit.Resp { return w.ag.Revoke(tok, c.TypeHint, w.cred(w.main)) }, ""
+		return func() *vkit.Resp { return w.ag.Revoke(tok, c.TypeHint, w.present()) }, ""
 
 	case "keys":
 		return func() *vkit.Resp { return w.ag.Keys() }, ""
